@@ -1253,6 +1253,7 @@ class ThirdCoreHexToFullCoreChanger(GeometryChanger):
     def __init__(self, cs=None):
         GeometryChanger.__init__(self, cs)
         self.listOfVolIntegratedParamsToScale = []
+        self._converted = False
 
     def _scaleBlockVolIntegratedParams(self, b, direction):
         if direction == "up":
@@ -1371,6 +1372,7 @@ class ThirdCoreHexToFullCoreChanger(GeometryChanger):
         self._sourceReactor.core.symmetry = geometry.SymmetryType(
             geometry.DomainType.FULL_CORE, geometry.BoundaryType.NO_SYMMETRY
         )
+        self._converted = True
 
     def restorePreviousGeometry(self, r=None):
         """Undo the changes made by convert by going back to 1/3 core.
@@ -1386,8 +1388,11 @@ class ThirdCoreHexToFullCoreChanger(GeometryChanger):
         """
         r = r or self._sourceReactor
 
-        # remove the assemblies that were added when the conversion happened.
-        if bool(self._newAssembliesAdded):
+        # remove the assemblies that were added when the conversion happened. A conversion of a
+        # core that only holds the central assembly adds nothing but still changed the symmetry
+        # and scaled the central assembly, so whether there is something to undo is recorded by
+        # convert() itself.
+        if self._converted:
             for a in self._newAssembliesAdded:
                 r.core.removeAssembly(a, discharge=False)
 
@@ -1404,6 +1409,7 @@ class ThirdCoreHexToFullCoreChanger(GeometryChanger):
                 )
                 for b in a:
                     self._scaleBlockVolIntegratedParams(b, "down")
+        self._converted = False
         self.reset()
 
 
